@@ -100,6 +100,11 @@ def scenario(ctx, rng, j):
     while sum(map(len, fields.values())) > 900:
         k = max(fields, key=lambda x: len(fields[x]))
         fields[k] = fields[k][:len(fields[k]) // 2]
+    # a caller's dict has whatever insertion order the caller produced
+    if rng.random() < 0.6:
+        ks = list(fields)
+        rng.shuffle(ks)
+        fields = {k: fields[k] for k in ks}
     allowed = rng.choice((0x00, 0x01, 0x03, 0x0f, 0xf0, 0x7f, 0x80,
                           rng.getrandbits(8) & 0x7f, rng.getrandbits(8)))
     if allowed == 0xff:
